@@ -152,6 +152,21 @@ pub broadcast proof fn lemma_fourcc_roundtrip(v: u32)
     reveal(u32_of_fourcc);
 }
 
+/// and the other way round: encoding the decoding of four characters gives the characters back
+#[verifier::spinoff_prover]
+#[verifier::rlimit(200)]
+pub proof fn lemma_fourcc_of_u32_of(f: FourCC)
+    ensures fourcc_of_u32(u32_of_fourcc(f)) == f
+{
+    reveal(fourcc_of_u32);
+    reveal(u32_of_fourcc);
+    let a = f.value[0] as u32; let b = f.value[1] as u32; let c = f.value[2] as u32; let e = f.value[3] as u32;
+    let v = (a * 0x1000000 + b * 0x10000 + c * 0x100 + e) as u32;
+    assert(v == u32_of_fourcc(f));
+    assert(v / 0x1000000 == a && (v / 0x10000) % 256 == b && (v / 0x100) % 256 == c && v % 256 == e);
+    assert(fourcc_of_u32(v).value =~= f.value);
+}
+
 // ---- ISO 639-2/T language packing (14496-12 8.4.2.3): pad bit + three 5-bit values, each = (letter - 0x60).
 // Written from the standard: the code packs the low five bits of the first three UTF-16 units of the string (missing
 // units count as 0); the string of a code is the three characters 0x60 + field.  The real language_code / language_string
